@@ -335,6 +335,52 @@ def _lfm_locus_kappa(lf):
 LFM_OPS = {"const": _lf_const, "locus_kappa": _lfm_locus_kappa}
 
 
+# rate heterogeneity: site classes (bins) with free / gamma rates, independent or along a site-HMM
+def _make_lf_bins(distribution, bins, indep):
+    from cogent3 import get_model, make_aligned_seqs, make_tree
+
+    tree = make_tree("((a:0.1,b:0.2):0.05,c:0.3,d:0.15)")
+    aln = make_aligned_seqs({k: (v.replace("R", "A")) * 3 for k, v in ALN.items()}, moltype="dna")
+    lf = get_model("HKY85", ordered_param="rate", distribution=distribution).make_likelihood_function(tree, bins=bins, sites_independent=indep)
+    lf.set_alignment(aln)
+    return lf
+
+
+def lf_bins_proj(lf):
+    d = lf_proj(lf)
+    d["rates"] = [round(float(lf.get_param_value("rate", bin=b)), 8) for b in lf.bin_names]
+    d["bprobs"] = [round(float(x), 8) for x in lf.get_param_value("bprobs")]
+    d["bins"] = list(lf.bin_names)
+    return d
+
+
+def _lfb_bprobs(lf):
+    n = len(lf.bin_names)
+    w = [i + 1.0 for i in range(n)]
+    lf.set_param_rule("bprobs", init=[x / sum(w) for x in w])
+    return lf
+
+
+def _lfb_shape(lf):
+    lf.set_param_rule("rate_shape", init=0.4)
+    return lf
+
+
+def _lfb_switch(lf):
+    lf.set_param_rule("bin_switch", init=0.2)
+    return lf
+
+
+def _lfb_opt(lf):
+    lf.optimise(max_evaluations=40, limit_action="ignore", show_progress=False)
+    return lf
+
+
+LFB_FREE_OPS = {"bprobs": _lfb_bprobs, "optimise": _lfb_opt, "const": _lf_const}
+LFB_GAMMA_OPS = {"bprobs": _lfb_bprobs, "shape": _lfb_shape, "optimise": _lfb_opt}
+LFB_HMM_OPS = {"bprobs": _lfb_bprobs, "switch": _lfb_switch, "shape": _lfb_shape}
+
+
 # ------------------------------------------------------------------ static things, results
 def static_proj(o):
     d = o.to_rich_dict() if hasattr(o, "to_rich_dict") else {"repr": repr(o)}
@@ -429,6 +475,9 @@ KINDS = {
     "annotation_db": (make_adb, ADB_OPS, adb_proj),
     "lf": (make_lf, LF_OPS, lf_proj),
     "lf_multilocus": (make_lf_multi, LFM_OPS, lf_multi_proj),
+    "lf_rate_free": (lambda: _make_lf_bins("free", 2, True), LFB_FREE_OPS, lf_bins_proj),
+    "lf_rate_gamma": (lambda: _make_lf_bins("gamma", 3, True), LFB_GAMMA_OPS, lf_bins_proj),
+    "lf_site_hmm": (lambda: _make_lf_bins("gamma", 2, False), LFB_HMM_OPS, lf_bins_proj),
     "submodel": (make_submodel, {}, static_proj),
     "codon_model": (make_codon_model, {}, static_proj),
     "moltype": (make_moltype, {}, static_proj),
